@@ -9,6 +9,84 @@ CHECKS = {
    technique="explicit-state exploration: BFS over the engine's own make_move from 45 seeds + complete enumeration of bounded-material families (kings+1, en-passant, castling, promotion), each state compared with a reference model",
    text="Exhaustive bounded model checking: every position of F-REACH (BFS depth 3/2 quick, 4/3 thorough), all legal kings+1 positions, all en-passant constellations with one extra man, castling constellations with 1 (2) enemy men, promotion family (thorough: all kings+2 positions); in each the engine's move list with capture/en-passant/castling/promotion flags is compared as a multiset with the reference legal moves and the in-check verdict with the reference. Right level because the rule interactions named in the property need at most kings + 3-4 men, all of which are enumerated, not sampled.",
    design="5/C01"),
+ "C02": dict(
+   technique="explicit-state exploration (position BFS + family enumeration, one make/take-back per transition) and exhaustive operation-sequence DFS (make / null move / take-back, nesting depth 4-5) against a reference stack",
+   text="Every transition of the position sweep and every nested make / null-move / take-back sequence up to the stated depth on one Game object: the result of make_move is compared field by field with the reference rules (en-passant target by the tolerant rule), every take-back with a full snapshot (placement, side, rights, ep, clocks, key, accumulators, bitboards, history length), and the three board views on all 64 squares after every operation.",
+   design="5/C02"),
+ "C03": dict(
+   technique="exhaustive operation-sequence DFS + position BFS with key recomputation after every operation, a key->identity collision map over all states met, and all 838^2 pairs of key components",
+   text="The carried key equals the from-scratch key after every make, null move and take-back of every explored sequence (null moves with an en-passant target included, vacuity-guarded); two identities under one key anywhere in the exploration is a violation; all 838 components recovered through the public API are pairwise distinct and non-zero (exhaustive).",
+   design="5/C03"),
+ "C04": dict(
+   technique="exhaustive enumeration of search sessions (complete 3-man endgame families, tactical roots x depth x hash size x prior searches x start generation) and of environment deviations (every clock-read index as expiry point) on the real search in a checked build",
+   text="Every search of every enumerated session runs in a build with overflow checks and debug assertions inside catch_unwind with a deterministic node budget: it must terminate, not panic and return a move that is legal by the reference rules. Sessions chain searches on one persistent state (non-initial states, generation counter wrap, hash sizes from the advertised minimum); for time-limited searches every clock-read index at which the limit expires is executed.",
+   design="5/C04"),
+ "C05": dict(
+   engine="tvc-sched",
+   technique="stateless model checking of the real code: exhaustive preemption-bounded DFS over thread interleavings (shuttle runtime, own yield-aware scheduler) for every well-formed command script up to length 5-6, plus an abstract-state fixpoint",
+   text="The real Uci command loop (GUI task) and the real search closure spawned by go run under a controlled scheduler; for every well-formed script over a 10-letter alphabet up to the stated length, every schedule within the stated preemption bound is executed; deadlock (no runnable task), livelock (step bound), missing readyok, a go without exactly one bestmove, quit not ending the loop are violations. Failing schedules are replayed twice before being reported. The set of abstract protocol states closes (reported), which extends the verdict to longer histories under a stated assumption.",
+   note="shuttle 0.9.3 (sequentially consistent interleavings); std::sync / std::thread of uci/mod.rs, util/sync.rs, time_control.rs re-pointed by the cfg-guarded shim lines; go infinite modelled as a blocking wait at the poll (hook H1); preemption-bounded, not unbounded",
+   design="5/C05"),
+ "C06": dict(
+   technique="explicit-state exploration for the round trip (every state of the position sweep) and exhaustive enumeration of malformed inputs (all rank-width vectors with <=2-3 deviations, all single edits, all short strings) under catch_unwind",
+   text="(a) For every position of the sweep families from_fen(to_fen(g)) equals g including key and accumulators, and the reference writer's canonical text survives read-then-write; (b) enumerated malformed strings: the reader returns Ok or Err and never unwinds, and a board field with a rank that is not eight squares wide (judged by an independent width computation) is never accepted.",
+   design="5/C06"),
+ "C07": dict(
+   technique="complete enumeration: all 107,648 (square, relevant-blocker subset) cases with irrelevant-bit variants, all leaper/pawn/between arguments, against coordinate-loop geometry",
+   text="Complete, not bounded: every subset of every square's relevant blocker mask (mask recomputed from geometry) plus occupancies differing only in irrelevant bits, every table index checked against the table length through a read-only hook; knight, king, pawn tables and all 64x64 between entries against their geometric definitions.",
+   design="5/C07"),
+ "C08": dict(
+   technique="exhaustive enumeration of search sessions (as C04, deeper) with a monitor on every info line of every iteration",
+   text="Every info line of every search of the enumerated sessions: PV non-empty and legal move by move on the reference model, depths 1,2,3.. within the limit, every mate announcement (for or against) with exactly the matching number of plies and ending in checkmate of the announced side. Sessions include prior table contents (same and other positions, ucinewgame, generation wrap).",
+   design="5/C08"),
+ "C09": dict(
+   technique="fault/deviation enumeration on the real search: for each (position, limit) every poll index k at which the stop flag first reads true, on fresh and pre-filled tables, followed by further searches",
+   text="The stop flag is behind a seam; for every search of the set the number of polls P of the unstopped run is measured and all k in 1..P are executed (production polling frequency). After the first true observation: no further node visit, no further poll, a legal move, the given position untouched, and follow-up searches on the same tables return legal moves and legal lines.",
+   design="5/C09"),
+ "C10": dict(
+   technique="explicit-state exploration (BFS positions with a previous move) x exhaustive enumeration of picker configurations with <=2 (thorough 3) simultaneous deviations, stream compared as a multiset with the reference legal moves",
+   text="For every position of the BFS families and every configuration of hash move (any legal move), killer slots (filled through try_push: legal quiets, captures, promotions and moves that are not legal here), counter move (keyed by the real previous move), history pattern and ply with at most D deviations from the default: the stream of MovePicker::next equals the legal moves each once; the captures-only stream is duplicate-free, legal and contains all captures and queen promotions.",
+   design="5/C10"),
+ "C11": dict(
+   technique="exhaustive path enumeration (no state merging) from small seeds with start clocks {0,3,97..100} against a history oracle; complete material families for the material rule",
+   text="Every node of every path up to length 5 (thorough 7) from 10 seeds x 6 start clocks: is_repeated_position() and the fifty-move verdict compared with the list of identities since the last capture/pawn move (both en-passant conventions; unasserted where they disagree). Material rule on all kings+0/1 positions, a complete kings+3-minors slice and every state of the sweep.",
+   design="5/C11"),
+ "C12": dict(
+   technique="exhaustive enumeration of sessions (all sequences up to length 3 over searches / ucinewgame / set hash) executed on independently built states under four clock behaviours, differential oracle <H, ucinewgame, P> = <P on fresh>, and the same through the real command loop",
+   text="Traces (best move, every info field except time/nps, table statistics) of every session are identical across independently built states, a real, a frozen, a +1ms/read and a +1h/read clock, and concurrent execution; for every history H and probe P the searches after ucinewgame equal those of a freshly constructed state with the hash size then in force, and generation, occupancy and all history scores equal a fresh state; scripts through the real Uci loop compare the last go with a fresh engine.",
+   design="5/C12"),
+ "C13": dict(
+   technique="exhaustive enumeration of option values parsed from the engine's own uci answer (Move Overhead, Threads: all values; Hash: boundaries, small values in all ordered pairs, before and between searches, with ucinewgame / stop in between; thorough: all 1025 sizes) through the real command loop with time-outs",
+   text="Each setoption is followed by isready -> readyok, a read-back of the option, and go depth 3 -> exactly one legal bestmove; a dead or hung search thread or a blocked command loop is a violation.",
+   design="5/C13"),
+ "C14": dict(
+   technique="exhaustive enumeration of a dense clock grid (about 0.8 M tuples quick) through TimeStrategy::new and a read-only accessor; virtual-clock search runs for the second clause",
+   text="Every (remaining, increment, movestogo, overhead, side, own-clock-only/both) tuple of the grid: hard <= (remaining-overhead)/2 with 1 ms tolerance, soft <= hard; movetime used as given for 5000+ values. The clause about returning before the clock runs out is explored under a virtual clock (time = nodes x 1 microsecond) on a coarser grid; real wall-clock time cannot be enumerated (stated).",
+   design="5/C14"),
+ "C15": dict(
+   technique="explicit-state exploration + exhaustive operation-sequence DFS with recomputation of phase counter and packed accumulator after every operation",
+   text="After every make, null move and take-back of every explored sequence, and in every state of the sweep (promotions, en passant, castling and F-HEAVY included), the carried phase counter and piece-square accumulator equal IncrementalEvalFields::init(&board) and separate 64-bit sums of the per-piece contributions.",
+   design="5/C15"),
+ "C16": dict(
+   technique="explicit-state exploration over positions reached by moves (BFS) and enumerated families incl. material far outside normal play, each with its colour-mirrored twin; exhaustive lattice of (mg, eg, phase) triples",
+   text="Every state: eval equals eval of the mirrored twin built from scratch, no panic, outside the mate range, between the evaluations with phase forced to 24 and to 0; the blend function on a stride-257 lattice x phase 0..96 and the full square [-300,300]^2 x phase; pack/unpack round trip (thorough: all pairs in [-32767,32767]^2).",
+   design="5/C16"),
+ "C17": dict(
+   technique="exhaustive path enumeration: every game up to length 2-4 from the start position and 12 FENs plus every prefix of 8 long deterministic games, each sent as one position command to the real command loop",
+   text="After each command the engine's game equals the rules-level position (tolerant en-passant field), the FEN dump describes it, the history length equals the number of moves, the replies equal the legal moves in long algebraic form, bestmove text is well-formed and legal.",
+   design="5/C17"),
+ "C18": dict(
+   technique="explicit-state exploration: every legal move of every state of the sweep, of the like-piece disambiguation families (2-3 knights/bishops/rooks/queens on all square sets) and of the promotion family against an independent SAN writer",
+   text="For every move: text injective within the position, equal to the reference SAN (PGN standard disambiguation) modulo +/#, suffix present iff the move gives check (castling included), and parse_move(format_move(m)) == m inside catch_unwind.",
+   design="5/C18"),
+ "C19": dict(
+   technique="explicit-state BFS over operation histories of the real table (insert / new-search / reset / resize with colliding keys), de-duplicated on the canonical observable state, against a reference replacement policy; complete fill-indicator sweep",
+   text="After every operation of every explored history every probe of every alphabet key equals the reference policy's entry (the case the property leaves open is delegated to should_overwrite_with), occupied equals the number of occupied slots; sizes from the advertised minimum, start generations 0/254/255; fill indicator at every permille boundary up to a full table; 800 consecutive searches.",
+   design="5/C19"),
+ "C20": dict(
+   technique="explicit-state exploration: every legal non-en-passant capture of every state of the sweep and of the complete F-SEE constellation family (victim + up to 2 (3) further men on seeing squares incl. x-rays, 5 king pairs) against a swap-list reference",
+   text="At threshold 0: verdict equal for the colour-mirrored capture, true when the target is undefended, true when victim >= attacker, and equal to the swap-list minimax on constellations without a tie among least-valuable attackers; piece values probed through the public verdicts.",
+   design="5/C20"),
 }
 
 NOT_YET = "check under construction in this round (see DESIGN.md section 5 for the planned exhaustive exploration); not claimed until its command exists"
@@ -25,7 +103,8 @@ m = {
    "add_only": True,
  },
  "engines": [
-   {"name": "tvc", "path": "/verif/harness/tvc", "serves_properties": sorted(CHECKS), "kind_free_text": "checked build (overflow checks + debug assertions) of the engine sources plus explorers: position BFS, family enumerators, operation-sequence DFS, search-session and environment-deviation enumeration"},
+   {"name": "tvc-sched", "path": "/verif/harness/sched", "serves_properties": ["C05"], "kind_free_text": "the same engine sources with std::sync / std::thread of three files resolved to shuttle; exhaustive preemption-bounded schedule enumeration of the UCI command loop and the search thread"},
+   {"name": "tvc", "path": "/verif/harness/tvc", "serves_properties": sorted(k for k in CHECKS if k != "C05"), "kind_free_text": "checked build (overflow checks + debug assertions) of the engine sources plus explorers: position BFS, family enumerators, operation-sequence DFS, search-session and environment-deviation enumeration"},
  ],
  "checks": [],
  "not_applicable": [],
